@@ -477,6 +477,13 @@ def _lst(cols, labels="range"):
     return dict(cols=cols, labels=labels)
 
 
+def bms_empty_holds():
+    return dict(lists=dict(hits=dict(cols=dict(offset=[0, 0], column=[0, 0], sample=["01", "03"]), labels=[0, 1], build="empty"),
+                           holds=_lst(dict(offset=[], column=[], length=[], sample=[])),
+                           bpms=_lst(dict(offset=[0, 0], bpm=[120, 120], metronome=[4, 4]), [0, 1])),
+                meta=dict(title="S", artist="a", version="v"))
+
+
 def corpus():
     c = []
     osu1 = dict(lists=dict(hits=_lst(dict(offset=[0, 500, 500, 1000], column=[0, 1, 2, 3], hitsound_set=[2, 0, 4, 0],
@@ -566,6 +573,10 @@ def corpus():
                 meta=dict(title="n", mode="Keys4", tags=[]))
     c.append(_h("quaver", 4, [quan], [_st("list.deepcopy", src=0), _st("list.move_end_to", src=1, to=100, at="any"),
                                        _st("map.rate", by=2), _st("alg.full_ln", gap=50, thres=25), _st("map.deepcopy", recent=True)]))
+    # minimised disagreement (thorough seed 0): a column getter called twice on an EMPTY list returns the Series the frame
+    # has cached — reachable from the frame by reference only (no memory to share)
+    c.append(_h("bms", 7, [bms_empty_holds()], [_st("hold.head_offset", src=0, recent=True), _st("hold.head_offset", src=0),
+                                                 _st("list.column", src=1, i=0), _st("list.column", src=1, i=0)]))
     # move to where the list already is (first / last offset, tail included for holds), and an empty list
     c.append(_h("osu", 4, [osu1], [_st("list.move_start_to", src=0, to=0, at="first"), _st("list.move_end_to", src=0, to=0, at="last"),
                                    _st("list.move_end_to", src=1, to=0, at="last"), _st("list.move_start_to", src=1, to=0, at="same")]))
@@ -1522,6 +1533,17 @@ def arg_closure(o, heap):
     reaches the frame whose buffers it aliases"""
     cells = [[p, r] for p, r in walk(o, heap)]
     have = {r for _, r in cells}
+    # a frame keeps the column Series it has handed out (pandas' item cache): `tl.offset` twice is the same object.
+    # Such a Series is reachable from the frame by reference, also when the frame is empty and no memory is shared.
+    import pandas as pd
+    for p, r in list(cells):
+        fr = heap.objs[r]
+        if isinstance(fr, pd.DataFrame):
+            for ser in list(getattr(fr, "_item_cache", {}).values()):
+                q = heap.by_id.get(id(ser))
+                if q is not None and q not in have:
+                    have.add(q)
+                    cells.append([p + "~cache", q])
     for p, r in list(cells):
         if not is_leaf(heap.objs[r]):
             continue
